@@ -324,7 +324,7 @@ static int c02_main(server &S,char const *pname,long from,long count,bool quick,
 			else kind="closed";
 			close(cfd);
 		}
-		S.barrier();
+		S.barrier(6);
 		std::vector<sev> evs=ev_take();
 		for(size_t i=0;i<evs.size();i++) { std::string s=sev_json(evs[i]); if(!s.empty()) emit(s); }
 		emit(vt::J().s("e","Reply").s("kind",kind).i("status",rp.status).i("nrep",nrep).i("pstatus",pstatus).b("frame",rp.framed_ok).i("values",gotvalues).bytes("head",head).str());
@@ -341,7 +341,7 @@ static int c02_main(server &S,char const *pname,long from,long count,bool quick,
 		pj.replace(pj.find("\"Req\""),5,"\"Probe\"");
 		pj.erase(pj.size()-1); pj+=",\"o\":"+jobs(got?t.status:0,o)+"}";
 		emit(pj);
-		S.barrier(1);
+		S.barrier(3);
 		std::vector<sev> late=ev_take();   // the probe accounts for one handler call (and one prepare/complete pair)
 		{ int h=0,e=0,c=0; for(size_t i=0;i<late.size();i++) { if(late[i].kind=='H') h++; if(late[i].kind=='E'||late[i].kind=='S') e++; if(late[i].kind=='C') c++; }
 		  if(h>1 || e>0 || c>1) emit(vt::J().s("e","Late").i("handler",h-1).i("onerror",e).i("complete",c-1).str()); }
